@@ -1,4 +1,5 @@
 \* two subscriptions (heads + events) on two connections as coded: unsubscribe ownership, close, independence
+\* measured (8 TLC workers shared over 3 runs): 2259356 distinct / 10559347 generated states, depth 26, 326.9s
 CONSTANTS NSubs = 2 NConn = 2 InitLen = 2 MaxLen = 3 MaxTag = 3 MaxReverts = 1 MaxL1 = 0 MaxPc = 0 MaxTx = 1 MaxGw = 0 MaxRecv = 0 MaxTicks = 0 MaxBack = 3 MaxGot = 6
   Ver = 10 Kinds <- KHE StartAtL1 = 0 NoLag = FALSE QuietSub = FALSE ReorgPrio = FALSE TeeStage = FALSE Window = FALSE FixL1None = FALSE FixL1Order = FALSE BlockIds <- BidsLatest
 INIT Init
